@@ -61,7 +61,24 @@ def cases(tier, seed):
             top = {"hook": True, "members": [["aaa", {"hook": True, "members": [["al", {"alias": ["shared"]}]]}],
                                              ["shared", chain]]}
             mods.append(["emdverif_graph", top])
-        yield {"modules": mods, "remove": r.random() < 0.4, "seed": r.randrange(10**6)}
+        # sub-modules that are ALSO in sys.modules under their dotted name, as after `import pkg.sub`: a hooked module is a
+        # starting point of the class search whatever its name, e.g. when its parent package does not opt in
+        registered = []
+        for name, m in mods:
+            if not name.startswith("emdverif_mod_"):
+                continue
+            def subpaths(mm, pre):
+                out = []
+                for nm, mem in mm["members"]:
+                    if "members" in mem:
+                        out.append(pre + [nm])
+                        out += subpaths(mem, pre + [nm])
+                return out
+            sp = subpaths(m, [])
+            if sp and r.random() < 0.5:
+                for pth in r.sample(sp, min(len(sp), r.choice([1, 1, 2]))):
+                    registered.append([name, pth])
+        yield {"modules": mods, "registered": registered, "remove": r.random() < 0.4, "seed": r.randrange(10**6)}
 
 
 def expand(top):
@@ -102,6 +119,14 @@ class Built:
                     cur = getattr(cur, part)
                 setattr(holder, nm, cur)            # the SAME module object under a second parent
             sys.modules[name] = mod
+            for top, pth in case.get("registered", []):
+                if top == name:
+                    cur = mod
+                    for part in pth:
+                        cur = getattr(cur, part)
+                    dotted = name + "." + ".".join(pth)
+                    sys.modules[dotted] = cur
+                    self.mods.append(dotted)
             self.mods.append(name)
 
     def mk_class(self, name, base, indirect):
@@ -173,7 +198,20 @@ def model_modules(case, ids):
         if "cls" in mem:
             return {"cls": ids[nm], "emd": mem["cls"] is not None}
         return {"other": 1}
-    return [[name, conv(expand(m), name)] for name, m in case["modules"]]
+    out = []
+    for name, m in case["modules"]:
+        out.append([name, conv(expand(m), name)])
+        for top, pth in case.get("registered", []):
+            if top == name:
+                out.append([name + "." + ".".join(pth), conv(sub_member(m, pth), pth[-1])])
+    return out
+
+
+def sub_member(m, pth):
+    cur = m
+    for nm in pth:
+        cur = dict(cur["members"])[nm]
+    return cur
 
 
 def expected(case, ids):
@@ -191,6 +229,11 @@ def expected(case, ids):
     for name, m in case["modules"]:
         if m["hook"] is True:
             walk(expand(m), 0)
+        for top, pth in case.get("registered", []):
+            if top == name:
+                sm = sub_member(m, pth)
+                if sm["hook"] is True:
+                    walk(sm, 0)
     return dic
 
 
@@ -218,6 +261,7 @@ def run_both(drv, case):
         # (b) a tree mixing instances of findable classes with built-ins
         root = emdfile.Root(name="r")
         made = {}
+        keep = []
         k = 0
         for n in usable[:6]:
             cls = b.classes[n]
@@ -233,6 +277,12 @@ def run_both(drv, case):
                     o = cls(dtype=[("x", float)], shape=(1, 2), name=f"n{k}")
                 elif emdfile.Custom in cls.mro():
                     o = cls(name=f"n{k}", n=3)
+                    if k % 2 == 1:
+                        # an attribute node that ALSO belongs to a tree of its own (e.g. it came from emd.read of another
+                        # file): it is still an attribute of this object and is stored with it
+                        elsewhere = emdfile.Root(name="elsewhere")
+                        elsewhere.tree(o.second)
+                        keep.append(elsewhere)
                 else:
                     o = cls(name=f"n{k}")
                 root.tree(o); made[f"node:{o.name}"] = n
